@@ -884,3 +884,68 @@ def replay(chk, data):
         if code > 0 and code & 2:
             print('signature:', classify(sc, kind, obs, code)[0])
     return 0 if code_ok else 1
+
+
+# ------------------------------------------------------------------ C14: Client vs AsyncClient parity
+def _plain(x):
+    """Canonical effect / state values -> str/int/bool/None/list/dict only (no floats, no tuples)."""
+    if isinstance(x, (tuple, list)):
+        return [_plain(y) for y in x]
+    if isinstance(x, dict):
+        return {str(k): _plain(v) for k, v in x.items()}
+    if isinstance(x, float):
+        return str(Fraction(x))
+    return x
+
+
+def _flat_trace(obs):
+    out = []
+    for ev, es in zip(obs['events'], obs['effects']):
+        out.append('event:' + ev[0])
+        for e in es:
+            if e[0] == 'wait':                      # timeout handed to the back-off wait, exact
+                out.append(['wait', '%d/%d' % (e[1], e[2])])
+            else:
+                out.append(_plain(e))
+    out.append(['final', _plain(obs['final'])])
+    return out
+
+
+def parity_traces(rng, n):
+    """n C10 scenarios (fault script x parameters x cause of loss x follow-up, plus random walks;
+    the thread-only race switch point is never used) run on Client AND AsyncClient with the C10
+    driver.  Returns [('client-reconnect', scenario_repr, trace_sync, trace_async)]; identical
+    behaviour gives equal lists.  Uses only `rng`; does not touch chk."""
+    grid = param_grid(rng, 12)
+    scs = []
+    causes = ['loss', 'loss', 'loss', 'disconnect', 'sdisc', 'sclose', 'loss-disabled']
+    afters = [[], ['connect', 'loss'], ['connect', 'loss', 'timeout_ok'], ['loss'], ['shutdown', 'loss'],
+              ['connect', 'loss', 'timeout_err', 'timeout_ok', 'loss']]
+    for i in range(n):
+        p = dict(rng.choice(grid))
+        if i % 5 == 4:
+            sc = random_walk(rng, gen_params(rng, reconnection=rng.random() < 0.85), rng.randrange(3, 14))
+        else:
+            pat = ''.join(rng.choice('EERO') for _ in range(rng.randrange(1, 6)))
+            cause = rng.choice(causes)
+            if cause == 'loss-disabled':
+                p['reconnection'] = False
+                cause = 'loss'
+            ab = rng.choice([None, None, None] + list(range(len(pat) + 1)))
+            sc = structured(rng, p, pat, ab, rng.choice(['shutdown', 'shutdown', 'sigint']), cause,
+                            rng.choice(afters))
+        for ev in sc['events']:
+            if ev[0] == 'timeout':
+                ev[4] = False                       # no thread-only race
+        scs.append(sc)
+    sync_obs = [run_sync(sc) for sc in scs]
+    async_obs = run_async_many(scs)
+    out = []
+    for sc, a, b in zip(scs, sync_obs, async_obs):
+        p = sc['params']
+        rep = 'rec=%s n=%d d=%s max=%s rf=%s | %s' % (
+            p['reconnection'], p['attempts'], Fraction(*p['delay']), Fraction(*p['delay_max']), Fraction(*p['rf']),
+            ' '.join(ev[0] + (':' + (ev[3] if ev[0] == 'connect' else ev[2]) if ev[0] in ('connect', 'timeout') else '')
+                     for ev in sc['events']))
+        out.append(('client-reconnect', rep[:300], _flat_trace(a), _flat_trace(b)))
+    return out
